@@ -353,13 +353,31 @@ def _method_unmodified(fn):
     return True
 
 
-def _batch_iterates_whole_request(fn):
-    """_unmarshaled_dispatch: the batch loop is `for <entry> in request` over the parameter itself (no slice, no filter)."""
-    loops = [n for n in ast.walk(fn) if isinstance(n, ast.For)]
-    if not loops:
-        return None
-    return any(isinstance(n.iter, ast.Name) and n.iter.id == "request" for n in loops) and not any(
-        isinstance(n.iter, ast.Subscript) for n in loops)
+def _batch_iterates_whole_request(fn, helpers=None):
+    """_unmarshaled_dispatch: the batch loop is `for <entry> in request` over the parameter itself (no slice, no filter) —
+    in the function's own body, or in a helper method it hands `request` to (`self.__batch(request, ..)` with
+    `for <entry> in <that parameter>` inside)."""
+    def loops_over(f, name):
+        loops = [n for n in ast.walk(f) if isinstance(n, ast.For)]
+        if not loops:
+            return None
+        return any(isinstance(n.iter, ast.Name) and n.iter.id == name for n in loops) and not any(
+            isinstance(n.iter, ast.Subscript) for n in loops)
+
+    own = loops_over(fn, "request")
+    if own is not None:
+        return own
+    found = None
+    for c in ast.walk(fn):
+        if isinstance(c, ast.Call) and _callee_name(c) in (helpers or {}):
+            h = helpers[_callee_name(c)]
+            params = [a.arg for a in h.args.args if a.arg != "self"]
+            for i, a in enumerate(c.args):
+                if isinstance(a, ast.Name) and a.id == "request" and i < len(params):
+                    r = loops_over(h, params[i])
+                    if r is not None:
+                        found = r if found is None else (found and r)
+    return found
 
 
 def _dotted_allowed(fn):
@@ -374,8 +392,125 @@ def _dotted_allowed(fn):
     return None
 
 
+def _assigned_names(node):
+    out = []
+    for n in ast.walk(node):
+        targets = []
+        if isinstance(n, ast.Assign):
+            targets = n.targets
+        elif isinstance(n, (ast.AugAssign, ast.AnnAssign, ast.NamedExpr)):
+            targets = [n.target]
+        for t in targets:
+            out.extend(x.id for x in ast.walk(t) if isinstance(x, ast.Name))
+    return out
+
+
+def _reads_response_id(v):
+    """`<response>.get("id")` / `.get("id", None)` / `<response>["id"]`."""
+    is_get = (isinstance(v, ast.Call) and isinstance(v.func, ast.Attribute) and v.func.attr == "get"
+              and isinstance(v.func.value, ast.Name) and v.args and isinstance(v.args[0], ast.Constant)
+              and v.args[0].value == "id" and not v.keywords
+              and (len(v.args) == 1 or (len(v.args) == 2 and isinstance(v.args[1], ast.Constant) and v.args[1].value is None)))
+    is_sub = (isinstance(v, ast.Subscript) and isinstance(v.value, ast.Name) and isinstance(v.slice, ast.Constant)
+              and v.slice.value == "id")
+    return is_get or is_sub
+
+
+def _is_none(node):
+    return node is None or (isinstance(node, ast.Constant) and node.value is None)
+
+
+def _trial_jdumps(stmt, var):
+    """`jdumps(<var>, ..)` as an expression statement (or bound to another name)."""
+    return (isinstance(stmt, (ast.Expr, ast.Assign)) and isinstance(stmt.value, ast.Call) and _callee_name(stmt.value) == "jdumps"
+            and stmt.value.args and isinstance(stmt.value.args[0], ast.Name) and stmt.value.args[0].id == var
+            and (not isinstance(stmt, ast.Assign) or var not in _assigned_names(stmt)))
+
+
+def _probe_filter(fn):
+    """A helper `def f(self, x)` that returns `x` when a trial `jdumps(x, ..)` succeeds and None when it raises:
+        try: jdumps(x, ..)  except Exception: return None  [else: return x]  /  return x
+    and nothing else."""
+    params = [a.arg for a in fn.args.args if a.arg != "self"]
+    if len(params) != 1 or fn.args.vararg or fn.args.kwarg or fn.args.kwonlyargs:
+        return False
+    x = params[0]
+    stmts = [st for st in fn.body if not (isinstance(st, ast.Expr) and isinstance(st.value, ast.Constant))]
+    if not stmts or not isinstance(stmts[0], ast.Try):
+        return False
+    t = stmts[0]
+    ret_x = lambda st: isinstance(st, ast.Return) and isinstance(st.value, ast.Name) and st.value.id == x  # noqa: E731
+    if not (len(t.body) in (1, 2) and _trial_jdumps(t.body[0], x) and (len(t.body) == 1 or ret_x(t.body[1]))):
+        return False
+    if not (len(t.handlers) == 1 and _catches_exception(t.handlers[0]) and len(t.handlers[0].body) == 1
+            and isinstance(t.handlers[0].body[0], ast.Return) and _is_none(t.handlers[0].body[0].value)):
+        return False
+    if t.finalbody or x in _assigned_names(fn):
+        return False
+    tail = list(t.orelse) + stmts[1:]
+    returns_in_try = len(t.body) == 2
+    return (len(tail) == 1 and ret_x(tail[0])) or (returns_in_try and not tail)
+
+
+def _safe_jdumps_id_probe(fn, helpers=None):
+    """_safe_jdumps, in the handler of the failed serialisation: the id the replacement keeps is read from the response
+    (`response.get("id")` / `response["id"]`), and the *only* thing that decides whether it is kept is a trial serialisation
+    of that very value — inline (`try: jdumps(<v>, ..) except Exception: <v> = None`) or through a helper that does exactly
+    that (`_probe_filter`) — no type test, no other rebinding; the Fault is built with rpcid=<v>."""
+    helpers = helpers or {}
+    for t in (n for n in ast.walk(fn) if isinstance(n, ast.Try)):
+        for h in t.handlers:
+            if not _catches_exception(h):
+                continue
+            faults = [n for s in h.body for n in ast.walk(s) if _is_fault_call(n)]
+            if not faults:
+                continue
+            var = None
+            filtered = False
+            for s in h.body:
+                if isinstance(s, ast.Assign) and len(s.targets) == 1 and isinstance(s.targets[0], ast.Name):
+                    v = s.value
+                    if _reads_response_id(v):
+                        var = s.targets[0].id
+                        break
+                    if (isinstance(v, ast.Call) and _callee_name(v) in helpers and _probe_filter(helpers[_callee_name(v)])
+                            and len(v.args) == 1 and not v.keywords and _reads_response_id(v.args[0])):
+                        var = s.targets[0].id
+                        filtered = True
+                        break
+            if var is None:
+                return False
+            probes = []
+            for s in h.body:
+                if isinstance(s, ast.Try):
+                    body_ok = len(s.body) == 1 and _trial_jdumps(s.body[0], var)
+                    resets = (len(s.handlers) == 1 and _catches_exception(s.handlers[0]) and not s.orelse and not s.finalbody
+                              and len(s.handlers[0].body) == 1 and isinstance(s.handlers[0].body[0], ast.Assign)
+                              and len(s.handlers[0].body[0].targets) == 1 and isinstance(s.handlers[0].body[0].targets[0], ast.Name)
+                              and s.handlers[0].body[0].targets[0].id == var and _is_none(s.handlers[0].body[0].value))
+                    if body_ok and resets:
+                        probes.append(s)
+            if len(probes) != (0 if filtered else 1):
+                return False
+            # the variable is bound once (filtered by the helper) or twice (read from the response, reset by the probe)
+            n_bind = sum(1 for s in h.body for x in _assigned_names(s) if x == var)
+            if n_bind != (1 if filtered else 2):
+                return False
+            return all(any(kw.arg == "rpcid" and isinstance(kw.value, ast.Name) and kw.value.id == var for kw in f.keywords) for f in faults)
+    return None
+
+
 def facts(src):
     out = []
+    # module-level functions and methods of the dispatcher, by name: a fact about a statement sequence also recognises the
+    # sequence when it has been moved verbatim into such a helper
+    helpers = {}
+    tree = src.module(MOD)
+    for n in (tree.body if tree is not None else []):
+        if isinstance(n, ast.FunctionDef):
+            helpers[n.name] = n
+        elif isinstance(n, ast.ClassDef) and n.name == "SimpleJSONRPCDispatcher":
+            helpers.update((m.name, m) for m in n.body if isinstance(m, ast.FunctionDef))
     sites = _fault_sites(src)
     out.append(Fact(
         "faultSites", "List (String × Int)",
@@ -394,8 +529,13 @@ def facts(src):
     out.append(Fact("safeJdumpsGuarded", "Bool", None if sg is None else lean_bool(sg), ["C02", "C03"],
                     "_safe_jdumps: both jdumps calls (the response, the id probe) are inside try/except Exception (no re-raise)",
                     json_value=sg))
+    sp = _safe_jdumps_id_probe(sj, helpers) if sj is not None else None
+    out.append(Fact("safeJdumpsIdProbe", "Bool", None if sp is None else lean_bool(sp), ["C02", "C03"],
+                    "_safe_jdumps: whether the replacement keeps the response's id is decided by a trial serialisation of that id "
+                    "alone (try: jdumps(id) except Exception: id = None) — no type test — and the Fault gets rpcid=<that id>",
+                    json_value=sp))
     ud = src.func(MOD, "SimpleJSONRPCDispatcher._unmarshaled_dispatch")
-    bw = _batch_iterates_whole_request(ud) if ud is not None else None
+    bw = _batch_iterates_whole_request(ud, helpers) if ud is not None else None
     out.append(Fact("batchLoopOverRequest", "Bool", None if bw is None else lean_bool(bw), ["C03"],
                     "_unmarshaled_dispatch: the batch loop iterates over `request` itself (no slice)", json_value=bw))
     sd = src.func(MOD, "SimpleJSONRPCDispatcher._marshaled_single_dispatch")
